@@ -349,14 +349,14 @@ def run(run, model):
     run.rule("R04.13", "an interface/core file offered as input is validated before the back end sees it (shared with C15 R15.3): an altered "
                        "artifact that passes validation panics in the Go back end")
     try:
-        run.try_rule(c15.r15_3, model, mir)
+        run.try_rule(c15.r15_3, model, mir, {"interface_hash==compute_hash()"}, False)
     except Exception as e:  # pragma: no cover
         raise
     run.rule("R04.11", "`go f` on a plain function value does not panic in the back end (shared with C08 R08.7)")
     run.try_rule(c08.r08_7, model)
     from rules import c07
     run.rule("R04.9", "specialisation neither panics on a supported type former nor recurses without bound: shared with C07 R07.1 / R07.5")
-    run.try_rule(c07.r07_1, model)
+    run.try_rule(c07.r07_1, model, False)
     run.try_rule(c07.r07_5, model)
     run.rule("R04.6", "no cyclic type can be built: shared with C03 R03.2 (occurs before binding; occurs handles every type former)")
     run.try_rule(c03.r03_2, model)
